@@ -209,6 +209,11 @@ func init() {
 			ex.incon("verif_unbox: destination must be a non-nil pointer (%T)", v)
 		}
 		*p = ex.deepCopy(ex.boxes[id], map[*Value]*Value{})
+		if i, ok := args[1].(Iface); ok && i.t != nil {
+			if pt, ok := i.t.Underlying().(*types.Pointer); ok {
+				*p = ex.normDecoded(*p, pt.Elem(), 0)
+			}
+		}
 		return nil
 	}
 	nameModels["verif_symbolic"] = func(ex *Exec, fn *ssa.Function, args []Value) Value {
@@ -218,6 +223,60 @@ func init() {
 	// ---- fmt / errors / strconv ----
 	models["fmt.Sprintf"] = func(ex *Exec, fn *ssa.Function, args []Value) Value {
 		return ex.formatModel(args[0].(Str), args[1].(SliceV))
+	}
+	// fmt.Sscanf on a concrete input with string / integer destinations (key recovery such as "%s %s")
+	models["fmt.Sscanf"] = func(ex *Exec, fn *ssa.Function, args []Value) Value {
+		in, format := args[0].(Str), args[1].(Str)
+		if !in.isConcrete() || !format.isConcrete() {
+			ex.incon("fmt.Sscanf on a symbolic string")
+		}
+		dsts := args[2].(SliceV)
+		nat := make([]interface{}, len(dsts))
+		for i, d := range dsts {
+			di, ok := d.(Iface)
+			if !ok || di.t == nil {
+				ex.incon("fmt.Sscanf: destination %d is not a pointer", i)
+			}
+			pt, ok := di.t.Underlying().(*types.Pointer)
+			if !ok {
+				ex.incon("fmt.Sscanf: destination %d is not a pointer", i)
+			}
+			switch b := pt.Elem().Underlying().(type) {
+			case *types.Basic:
+				switch {
+				case b.Kind() == types.String:
+					nat[i] = new(string)
+				case b.Info()&types.IsUnsigned != 0:
+					nat[i] = new(uint64)
+				case b.Info()&types.IsInteger != 0:
+					nat[i] = new(int64)
+				default:
+					ex.incon("fmt.Sscanf: destination type %s not modelled", pt.Elem())
+				}
+			default:
+				ex.incon("fmt.Sscanf: destination type %s not modelled", pt.Elem())
+			}
+		}
+		n, err := fmt.Sscanf(in.s, format.s, nat...)
+		for i, d := range dsts {
+			if i >= n {
+				break
+			}
+			p := d.(Iface).v.(*Value)
+			switch v := nat[i].(type) {
+			case *string:
+				*p = Str{s: *v}
+			case *uint64:
+				*p = ex.ctx.IntBig(new(big.Int).SetUint64(*v))
+			case *int64:
+				*p = ex.ctx.Int(*v)
+			}
+		}
+		var e Value = Iface{}
+		if err != nil {
+			e = ex.newErr(Str{s: err.Error()})
+		}
+		return Tuple{ex.ctx.Int(int64(n)), e}
 	}
 	models["fmt.Sprint"] = func(ex *Exec, fn *ssa.Function, args []Value) Value {
 		return ex.formatModel(Str{s: strings.Repeat("%v", len(args[0].(SliceV)))}, args[0].(SliceV))
@@ -1016,3 +1075,59 @@ func (ex *Exec) deepEq(a, b Value, depth int) *Term {
 }
 
 var _ = sort.Strings
+
+// normDecoded: what protobuf decoding does to the gogoproto custom types that box/unbox would otherwise copy verbatim:
+// a math.Int / LegacyDec whose *big.Int is nil is written as "0" and read back as a non-nil zero.
+func (ex *Exec) normDecoded(v Value, t types.Type, depth int) Value {
+	if depth > 12 {
+		return v
+	}
+	t = types.Unalias(t)
+	if n, ok := t.(*types.Named); ok && n.Obj().Pkg() != nil && n.Obj().Pkg().Path() == "cosmossdk.io/math" &&
+		(n.Obj().Name() == "Int" || n.Obj().Name() == "LegacyDec") {
+		if st, ok := v.(Struct); ok && len(st) == 1 {
+			if p, ok := st[0].(*Value); ok && p == nil {
+				return Struct{ex.newBig(ex.ctx.Int(0))}
+			}
+		}
+		return v
+	}
+	switch u := t.Underlying().(type) {
+	case *types.Struct:
+		st, ok := v.(Struct)
+		if !ok || len(st) != u.NumFields() {
+			return v
+		}
+		out := make(Struct, len(st))
+		for i := range st {
+			out[i] = ex.normDecoded(st[i], u.Field(i).Type(), depth+1)
+		}
+		return out
+	case *types.Slice:
+		sl, ok := v.(SliceV)
+		if !ok {
+			return v
+		}
+		if _, isb := u.Elem().Underlying().(*types.Basic); isb {
+			return v
+		}
+		for i := range sl {
+			sl[i] = ex.normDecoded(sl[i], u.Elem(), depth+1)
+		}
+		return sl
+	case *types.Array:
+		ar, ok := v.(Array)
+		if !ok {
+			return v
+		}
+		for i := range ar {
+			ar[i] = ex.normDecoded(ar[i], u.Elem(), depth+1)
+		}
+		return ar
+	case *types.Pointer:
+		if p, ok := v.(*Value); ok && p != nil {
+			*p = ex.normDecoded(*p, u.Elem(), depth+1)
+		}
+	}
+	return v
+}
